@@ -374,6 +374,19 @@ func (f *frame) evalCond(e ast.Expr) *T {
 					return tNot(mk("isnil", "", a))
 				}
 			}
+			// comparison of a boolean with a constant is the boolean or its negation
+			if op == token.EQL || op == token.NEQ {
+				for i, side := range []*T{a, b} {
+					other := []*T{b, a}[i]
+					if side.Op == "k" && (side.K == "true" || side.K == "false") {
+						same := (side.K == "true") == (op == token.EQL)
+						if same {
+							return other
+						}
+						return tNot(other)
+					}
+				}
+			}
 			switch op {
 			case token.NEQ:
 				return tNot(mk("cmp", "==", a, b))
